@@ -246,4 +246,620 @@ theorem val_str_open (V : Variant) (hV : FixedParser V) (d : Bytes) (isRoot : Bo
       have := nlcase k k1 k2 (by simpa using hnl) hr'
       simpa using this
 
+
+theorem val_pair_open (V : Variant) (hV : FixedParser V) (d : Bytes) (isRoot : Bool) (kids : List PNode) (fuel : Nat)
+    (n h s rh g rs W cl : Bytes) (bh bs : Bool) (p : Nat) (hp : 1 ≤ p) (hh : NoNul h) (hs : NoNul s)
+    (hrh : RStr h bh rh) (hg : GapOK true g) (hfol : Follows bh (g ++ rs)) (hrs : RStr s bs rs) (hW : CareSplit W)
+    (hcl : IsCloser cl isRoot) (hd : d.drop (p - 1) = rh ++ g ++ rs ++ W ++ cl) :
+    ∃ q, entryValue V d isRoot kids fuel (some n) p = .ok (putInaddr n h (some s) kids, q) ∧
+      OpenEnd d (p - 1 + rh.length + g.length + rs.length) W cl q := by
+  obtain ⟨c, tl, rfl, hc⟩ := rstr_head hrs
+  obtain ⟨st, c0, _, _, _, c125, c59, c10, c44⟩ := strhead_stop true c hc
+  unfold entryValue
+  simp only [nonNull, bind, Except.bind]
+  rw [unread_ok p hp]
+  simp only
+  have hfol' : Follows bh (g ++ (c :: tl) ++ W ++ cl) := by
+    intro hb x hx
+    apply hfol hb x
+    cases g <;> simpa using hx
+  rw [parseString_at d (p - 1) [] h bh rh (g ++ (c :: tl) ++ W ++ cl) (gapOK_nil false) hh hrh hfol' (by simpa using hd)]
+  simp only [List.length_nil, Nat.add_zero]
+  have hd2 : d.drop (p - 1 + rh.length) = g ++ c :: (tl ++ W ++ cl) := by
+    have := drop_app (a := rh) (b := g ++ (c :: tl) ++ W ++ cl) (by simpa using hd)
+    simpa using this
+  rw [wsAt_gap true d _ g c _ hg st hd2]
+  have e59 : (c == 59) = false := by simpa using c59
+  have e10 : (c == 10) = false := by simpa using c10
+  have e125 : (c == 125) = false := by simpa using c125
+  have e0 : (c == 0) = false := by simpa using c0
+  have e44 : (c == 44) = false := by simpa using c44
+  simp only [e59, e10, e125, e0, e44, Bool.or_false, Bool.and_false, Bool.false_eq_true, if_false]
+  rw [unread_ok _ (by omega)]
+  simp only [Nat.add_sub_cancel]
+  have hd3 : d.drop (p - 1 + rh.length + g.length) = [] ++ (c :: tl) ++ (W ++ cl) := by
+    have := drop_app (a := g) (b := c :: (tl ++ W ++ cl)) hd2
+    simpa using this
+  rw [parseString_at d _ [] s bs (c :: tl) (W ++ cl) (gapOK_nil false) hs hrs (follows_care bs W cl isRoot hW hcl) hd3]
+  simp only [List.length_nil, Nat.add_zero]
+  have hd4 : d.drop (p - 1 + rh.length + g.length + (c :: tl).length) = W ++ cl := by
+    have := drop_app (a := c :: tl) (b := W ++ cl) (by simpa using hd3)
+    simpa using this
+  have hp4 : p - 1 + rh.length + g.length + (c :: tl).length ≤ d.length := by
+    have hl := congrArg List.length hd3
+    simp only [List.length_drop, List.length_append, List.length_nil, List.length_cons] at hl
+    simp only [List.length_cons]
+    omega
+  exact entryEnd_open V hV d isRoot _ _ W cl hW hcl hp4 hd4
+
+
+/-! ### comma lists -/
+
+/-- what follows a value: a terminated end (`pt ++ t :: rest`) or an open one (`W ++ cl`);
+    `Q q`: where the cursor may be after `entryEnd` -/
+inductive EndForm (d : Bytes) (isRoot : Bool) (base : Nat) : Bytes → (Nat → Prop) → Prop where
+  | term (pt : Bytes) (t : UInt8) (rest : Bytes) : GapOK true pt → (t = 59 ∨ t = 10) →
+      EndForm d isRoot base (pt ++ t :: rest) (fun q => q = base + pt.length + 1)
+  | open (W cl : Bytes) : CareSplit W → IsCloser cl isRoot →
+      EndForm d isRoot base (W ++ cl) (OpenEnd d base W cl)
+
+/-- the check at the bottom of `conf_parse_entry` on either form -/
+theorem entryEnd_form (V : Variant) (hV : FixedParser V) (d : Bytes) (isRoot : Bool) (kids : List PNode) (base : Nat)
+    (E : Bytes) (Q : Nat → Prop) (hE : EndForm d isRoot base E Q) (hb : base ≤ d.length) (hd : d.drop base = E) :
+    ∃ q, entryEnd V d isRoot kids base = .ok (kids, q) ∧ Q q := by
+  cases hE with
+  | term pt t rest hpt ht => exact ⟨_, entryEnd_at V d isRoot kids base pt t rest hpt ht hd, rfl⟩
+  | «open» W cl hW hcl => exact entryEnd_open V hV d isRoot kids base W cl hW hcl hb hd
+
+/-- the exit of the comma loop after an item, followed by the check at the bottom of
+    `conf_parse_entry`: the list is complete, the cursor ends where the form says -/
+theorem comma_exit (V : Variant) (hV : FixedParser V) (d : Bytes) (isRoot : Bool) (base : Nat) (E : Bytes) (Q : Nat → Prop)
+    (hE : EndForm d isRoot base E Q) (hb : base ≤ d.length) (hd : d.drop base = E)
+    (acc : List Bytes) (K : List Bytes → List PNode) (cont : Nat → Except ParseErr (List Bytes × Nat)) :
+    ∃ q, ((do
+        let (ch, p) ← wsAt true d base
+        if ch == 0 then (if V.f12 then .ok (acc, p) else .error .prematureEof)
+        else if ch == 10 || ch == 59 || (V.f12 && ch == 125) then
+          (if V.f11 || ch == 125 then do let p ← unread p; .ok (acc, p) else .ok (acc, p))
+        else if ch != 44 then .error .expectedComma
+        else cont p) >>= fun (r : List Bytes × Nat) => entryEnd V d isRoot (K r.1) r.2) = .ok (K acc, q) ∧ Q q := by
+  have hV' := hV
+  obtain ⟨h10, h11, h12⟩ := hV
+  cases hE with
+  | term pt t rest hpt ht =>
+    have st : StopCh true t := by
+      rcases ht with rfl | rfl
+      · exact .inl ⟨by decide, by decide, by decide⟩
+      · exact .inr ⟨rfl, rfl⟩
+    rw [wsAt_gap true d base pt t rest hpt st hd]
+    have hd2 : d.drop (base + pt.length) = [] ++ t :: rest := by
+      have := drop_app (a := pt) (b := t :: rest) hd
+      simpa using this
+    have hend := entryEnd_at V d isRoot (K acc) (base + pt.length) [] t rest (gapOK_nil true) ht hd2
+    refine ⟨base + pt.length + 1, ?_, rfl⟩
+    rcases ht with rfl | rfl
+    · simp only [bind, Except.bind, show ((59 : UInt8) == 0) = false by decide, show ((59 : UInt8) == 10) = false by decide,
+        beq_self_eq_true, Bool.false_or, Bool.true_or, Bool.false_eq_true, if_false, if_true, h11]
+      rw [unread_ok _ (by omega)]
+      simp only [Nat.add_sub_cancel]
+      rw [hend]; simp
+    · simp only [bind, Except.bind, show ((10 : UInt8) == 0) = false by decide, beq_self_eq_true, Bool.true_or,
+        Bool.false_eq_true, if_false, if_true, h11]
+      rw [unread_ok _ (by omega)]
+      simp only [Nat.add_sub_cancel]
+      rw [hend]; simp
+  | «open» W cl hW hcl =>
+    have nlcase : ∀ k, 1 ≤ k → k ≤ W.length → d.drop (base + k - 1) = 10 :: (W.drop k ++ cl) → GapOK false (W.drop k) →
+        ∃ q, entryEnd V d isRoot (K acc) (base + k - 1) = .ok (K acc, q) ∧ OpenEnd d base W cl q := by
+      intro k k1 k2 hnl hr'
+      have hend := entryEnd_at V d isRoot (K acc) (base + k - 1) [] 10 (W.drop k ++ cl) (gapOK_nil true) (.inr rfl) (by simpa using hnl)
+      refine ⟨_, hend, k, k2, by simp; omega, hr', ?_⟩
+      have : base + k - 1 + ([] : Bytes).length + 1 = base + k := by simp; omega
+      rw [this]; exact drop_app' hd k k2
+    rcases hcl with ⟨rest, rfl, hroot⟩ | rfl
+    · subst hroot
+      rcases wsAt_care d base W 125 rest hW (.inl ⟨by decide, by decide, by decide⟩) hd with ⟨_, hw⟩ | ⟨k, k1, k2, hw, hnl, hr'⟩
+      · rw [hw]
+        simp only [bind, Except.bind, show ((125 : UInt8) == 0) = false by decide, show ((125 : UInt8) == 10) = false by decide,
+          show ((125 : UInt8) == 59) = false by decide, beq_self_eq_true, Bool.false_or, Bool.or_true, Bool.and_true,
+          Bool.false_eq_true, if_false, if_true, h12]
+        rw [unread_ok _ (by omega)]
+        simp only [Nat.add_sub_cancel]
+        have hd2 : d.drop (base + W.length) = [] ++ (125 :: rest) := by
+          have := drop_app (a := W) (b := 125 :: rest) hd
+          simpa using this
+        obtain ⟨q, hq, hoq⟩ := entryEnd_open V hV' d false (K acc) (base + W.length) [] (125 :: rest) (.inl (gapOK_nil true))
+          (.inl ⟨rest, rfl, rfl⟩) (by have := pos_le_of_drop hd2 (by simp); omega) hd2
+        refine ⟨q, hq, ?_⟩
+        obtain ⟨k, k2, rfl, _, hdq⟩ := hoq
+        simp at k2; subst k2
+        refine ⟨W.length, Nat.le_refl _, by simp, by simpa using gapOK_nil false, ?_⟩
+        simpa using hdq
+      · rw [hw]
+        simp only [bind, Except.bind, show ((10 : UInt8) == 0) = false by decide, beq_self_eq_true, Bool.true_or,
+          Bool.false_eq_true, if_false, if_true, h11]
+        rw [unread_ok _ (by omega)]
+        exact nlcase k k1 k2 hnl hr'
+    · rw [List.append_nil] at hd
+      rcases wsAt_care_eof d base W hW hb hd with ⟨_, hw⟩ | ⟨k, k1, k2, hw, hnl, hr'⟩
+      · rw [hw]
+        simp only [bind, Except.bind, beq_self_eq_true, if_true, h12]
+        unfold entryEnd
+        rw [wsAt_end]
+        simp only [bind, Except.bind, h12, Bool.true_and, beq_self_eq_true, if_true]
+        have hl : W.length = d.length - base := by rw [← hd]; simp
+        refine ⟨_, rfl, W.length, Nat.le_refl _, by omega, by simpa using gapOK_nil false, ?_⟩
+        simp
+      · rw [hw]
+        simp only [bind, Except.bind, show ((10 : UInt8) == 0) = false by decide, beq_self_eq_true, Bool.true_or,
+          Bool.false_eq_true, if_false, if_true, h11]
+        rw [unread_ok _ (by omega)]
+        have := nlcase k k1 k2 (by simpa using hnl) hr'
+        simpa using this
+
+
+/-- items of a comma list after the first comma (no trailing gap); flag: the last item is a bareword -/
+inductive RCItems : List Bytes → Bytes → Bool → Prop where
+  | last (g1 x r : Bytes) (b : Bool) : GapOK true g1 → NoNul x → RStr x b r → RCItems [x] (g1 ++ r) b
+  | cons (g1 x r g2 : Bytes) (b : Bool) (xs : List Bytes) (body : Bytes) (bl : Bool) : GapOK true g1 → NoNul x → RStr x b r →
+      GapOK true g2 → RCItems xs body bl → RCItems (x :: xs) (g1 ++ r ++ g2 ++ [44] ++ body) bl
+
+theorem endForm_follows (d : Bytes) (isRoot : Bool) (base : Nat) (E : Bytes) (Q : Nat → Prop) (h : EndForm d isRoot base E Q)
+    (b : Bool) : Follows b E := by
+  cases h with
+  | term pt t rest hpt ht => exact follows_gap b pt t rest hpt (term_nontoken t ht)
+  | «open» W cl hW hcl => exact follows_care b W cl isRoot hW hcl
+
+theorem comma_at (V : Variant) (hV : FixedParser V) (d : Bytes) (isRoot : Bool) (K : List Bytes → List PNode) :
+    ∀ (xs : List Bytes) (body : Bytes) (bl : Bool), RCItems xs body bl →
+    ∀ (fuel pos : Nat) (acc : List Bytes) (E : Bytes) (Q : Nat → Prop), d.drop pos = body ++ E →
+      EndForm d isRoot (pos + body.length) E Q → d.length - pos < fuel →
+      ∃ q, (commaLoop V d fuel pos acc >>= fun (r : List Bytes × Nat) => entryEnd V d isRoot (K r.1) r.2) =
+        .ok (K (acc ++ xs), q) ∧ Q q := by
+  intro xs body bl hr
+  induction hr with
+  | last g1 x r b hg1 hx hrs =>
+    intro fuel pos acc E Q hd hE hf
+    cases fuel with
+    | zero => omega
+    | succ fuel =>
+      obtain ⟨c, t, rfl, hc⟩ := rstr_head hrs
+      obtain ⟨st, c0, _, _, _, _, _, c10, _⟩ := strhead_stop true c hc
+      have hlen : pos + g1.length + (c :: t).length ≤ d.length := by
+        have := congrArg List.length hd
+        simp only [List.length_drop, List.length_append, List.length_cons] at this
+        simp only [List.length_cons]; omega
+      unfold commaLoop
+      rw [wsAt_gap true d pos g1 c (t ++ E) hg1 st (by simpa using hd)]
+      have e0 : (c == 0) = false := by simpa using c0
+      have e10 : (c == 10) = false := by simpa using c10
+      simp only [e0, e10, Bool.false_eq_true, if_false, bind, Except.bind]
+      rw [unread_ok _ (by omega)]
+      simp only [Nat.add_sub_cancel]
+      have hd1 : d.drop (pos + g1.length) = [] ++ (c :: t) ++ E := by
+        have := drop_app (a := g1) (b := (c :: t) ++ E) (by simpa using hd)
+        simpa using this
+      rw [parseString_at d _ [] x b (c :: t) E (gapOK_nil false) hx hrs (endForm_follows d isRoot _ E Q hE b) hd1]
+      simp only [nonNull, List.length_nil, Nat.add_zero]
+      have hd2 : d.drop (pos + g1.length + (c :: t).length) = E := by
+        have := drop_app (a := c :: t) (b := E) (by simpa using hd1)
+        simpa using this
+      have hE' : EndForm d isRoot (pos + g1.length + (c :: t).length) E Q := by
+        have : pos + (g1 ++ c :: t).length = pos + g1.length + (c :: t).length := by simp; omega
+        rw [← this]; exact hE
+      have := comma_exit V hV d isRoot _ E Q hE' hlen hd2 (acc ++ [x]) K (fun p => commaLoop V d fuel p (acc ++ [x]))
+      simpa [bind, Except.bind] using this
+  | cons g1 x r g2 b xs body bl hg1 hx hrs hg2 hrest ih =>
+    intro fuel pos acc E Q hd hE hf
+    cases fuel with
+    | zero => omega
+    | succ fuel =>
+      obtain ⟨c, t, rfl, hc⟩ := rstr_head hrs
+      obtain ⟨st, c0, _, _, _, _, _, c10, _⟩ := strhead_stop true c hc
+      unfold commaLoop
+      rw [wsAt_gap true d pos g1 c (t ++ g2 ++ 44 :: (body ++ E)) hg1 st (by simpa using hd)]
+      have e0 : (c == 0) = false := by simpa using c0
+      have e10 : (c == 10) = false := by simpa using c10
+      simp only [e0, e10, Bool.false_eq_true, if_false, bind, Except.bind]
+      rw [unread_ok _ (by omega)]
+      simp only [Nat.add_sub_cancel]
+      have hd1 : d.drop (pos + g1.length) = [] ++ (c :: t) ++ (g2 ++ 44 :: (body ++ E)) := by
+        have := drop_app (a := g1) (b := (c :: t) ++ g2 ++ 44 :: (body ++ E)) (by simpa using hd)
+        simpa using this
+      rw [parseString_at d _ [] x b (c :: t) _ (gapOK_nil false) hx hrs (follows_gap b g2 44 _ hg2 (by decide)) hd1]
+      simp only [nonNull, List.length_nil, Nat.add_zero]
+      have hd2 : d.drop (pos + g1.length + (c :: t).length) = g2 ++ 44 :: (body ++ E) := by
+        have := drop_app (a := c :: t) (b := g2 ++ 44 :: (body ++ E)) (by simpa using hd1)
+        simpa using this
+      rw [wsAt_gap true d _ g2 44 _ hg2 (.inl ⟨by decide, by decide, by decide⟩) hd2]
+      have hd3 : d.drop (pos + g1.length + (c :: t).length + g2.length + 1) = body ++ E := by
+        have := drop_app (a := g2 ++ [44]) (b := body ++ E) (by simpa using hd2)
+        simpa [Nat.add_assoc] using this
+      have hlen : pos + g1.length + (c :: t).length + g2.length + 1 ≤ d.length := by
+        have := congrArg List.length hd
+        simp only [List.length_drop, List.length_append, List.length_cons, List.length_nil] at this
+        simp only [List.length_cons]; omega
+      simp only [show ((44 : UInt8) == 0) = false by decide, show ((44 : UInt8) == 10) = false by decide,
+        show ((44 : UInt8) == 59) = false by decide, show ((44 : UInt8) == 125) = false by decide,
+        show ((44 : UInt8) != 44) = false by decide, Bool.or_false, Bool.and_false, Bool.false_eq_true, if_false]
+      have hE' : EndForm d isRoot (pos + g1.length + (c :: t).length + g2.length + 1 + body.length) E Q := by
+        have : pos + (g1 ++ c :: t ++ g2 ++ [44] ++ body).length = pos + g1.length + (c :: t).length + g2.length + 1 + body.length := by
+          simp; omega
+        rw [← this]; exact hE
+      obtain ⟨q, hq, hQ⟩ := ih fuel _ (acc ++ [x]) E Q hd3 hE' (by omega)
+      refine ⟨q, ?_, hQ⟩
+      simpa [bind, Except.bind] using hq
+
+
+/-! ### values and blocks, general form -/
+
+theorem val_str_form (V : Variant) (hV : FixedParser V) (d : Bytes) (isRoot : Bool) (kids : List PNode) (fuel : Nat)
+    (n s r : Bytes) (b : Bool) (p : Nat) (hp : 1 ≤ p) (hs : NoNul s) (hr : RStr s b r)
+    (E : Bytes) (Q : Nat → Prop) (hE : EndForm d isRoot (p - 1 + r.length) E Q) (hd : d.drop (p - 1) = r ++ E) :
+    ∃ q, entryValue V d isRoot kids fuel (some n) p = .ok (putStr n s kids, q) ∧ Q q := by
+  cases hE with
+  | term pt t rest hpt ht =>
+    exact ⟨_, val_str_at V d isRoot kids fuel n s r pt b t rest p hp hs hr hpt ht (by simpa using hd), rfl⟩
+  | «open» W cl hW hcl => exact val_str_open V hV d isRoot kids fuel n s r W cl b p hp hs hr hW hcl (by simpa using hd)
+
+theorem val_pair_form (V : Variant) (hV : FixedParser V) (d : Bytes) (isRoot : Bool) (kids : List PNode) (fuel : Nat)
+    (n h s rh g rs : Bytes) (bh bs : Bool) (p : Nat) (hp : 1 ≤ p) (hh : NoNul h) (hs : NoNul s)
+    (hrh : RStr h bh rh) (hg : GapOK true g) (hfol : Follows bh (g ++ rs)) (hrs : RStr s bs rs)
+    (E : Bytes) (Q : Nat → Prop) (hE : EndForm d isRoot (p - 1 + rh.length + g.length + rs.length) E Q)
+    (hd : d.drop (p - 1) = rh ++ g ++ rs ++ E) :
+    ∃ q, entryValue V d isRoot kids fuel (some n) p = .ok (putInaddr n h (some s) kids, q) ∧ Q q := by
+  cases hE with
+  | term pt t rest hpt ht =>
+    exact ⟨_, val_pair_at V d isRoot kids fuel n h s rh g rs pt bh bs t rest p hp hh hs hrh hg hfol hrs hpt ht (by simpa using hd), rfl⟩
+  | «open» W cl hW hcl =>
+    exact val_pair_open V hV d isRoot kids fuel n h s rh g rs W cl bh bs p hp hh hs hrh hg hfol hrs hW hcl (by simpa using hd)
+
+/-- a comma list as the value of an entry -/
+theorem val_clist_form (V : Variant) (hV : FixedParser V) (d : Bytes) (isRoot : Bool) (kids : List PNode) (fuel : Nat)
+    (n x r g2 : Bytes) (b : Bool) (xs : List Bytes) (body : Bytes) (bl : Bool) (p : Nat) (hp : 1 ≤ p) (hx : NoNul x)
+    (hr : RStr x b r) (hg2 : GapOK true g2) (hrc : RCItems xs body bl)
+    (E : Bytes) (Q : Nat → Prop) (hE : EndForm d isRoot (p - 1 + r.length + g2.length + 1 + body.length) E Q)
+    (hd : d.drop (p - 1) = r ++ g2 ++ [44] ++ body ++ E) (hf : d.length - (p - 1) < fuel) :
+    ∃ q, entryValue V d isRoot kids fuel (some n) p = .ok (putList n (x :: xs) kids, q) ∧ Q q := by
+  unfold entryValue
+  simp only [nonNull, bind, Except.bind]
+  rw [unread_ok p hp]
+  simp only
+  rw [parseString_at d (p - 1) [] x b r (g2 ++ [44] ++ body ++ E) (gapOK_nil false) hx hr
+    (by have := follows_gap b g2 44 (body ++ E) hg2 (by decide); simpa using this) (by simpa using hd)]
+  simp only [List.length_nil, Nat.add_zero]
+  have hd2 : d.drop (p - 1 + r.length) = g2 ++ 44 :: (body ++ E) := by
+    have := drop_app (a := r) (b := g2 ++ [44] ++ body ++ E) (by simpa using hd)
+    simpa using this
+  rw [wsAt_gap true d _ g2 44 _ hg2 (.inl ⟨by decide, by decide, by decide⟩) hd2]
+  simp only [show ((44 : UInt8) == 59) = false by decide, show ((44 : UInt8) == 10) = false by decide,
+    show ((44 : UInt8) == 125) = false by decide, show ((44 : UInt8) == 0) = false by decide, Bool.or_false, Bool.and_false,
+    Bool.false_eq_true, if_false, beq_self_eq_true, if_true]
+  have hd3 : d.drop (p - 1 + r.length + g2.length + 1) = body ++ E := by
+    have := drop_app (a := g2 ++ [44]) (b := body ++ E) (by simpa using hd2)
+    simpa [Nat.add_assoc] using this
+  obtain ⟨q, hq, hQ⟩ := comma_at V hV d isRoot (fun items => putList n items kids) xs body bl hrc fuel _ [x] E Q hd3 hE
+    (by omega)
+  exact ⟨q, by simpa [bind, Except.bind] using hq, hQ⟩
+
+mutual
+inductive RVal2 : Val → Bytes → Bool → Prop where
+  | str (s r : Bytes) (b : Bool) : NoNul s → RStr s b r → RVal2 (.str s) r b
+  | pair (h s rh rs g : Bytes) (bh bs : Bool) : NoNul h → NoNul s → RStr h bh rh → GapOK true g →
+      Follows bh (g ++ rs) → RStr s bs rs → RVal2 (.pair h s) (rh ++ g ++ rs) bs
+  | list (xs : List Bytes) (body : Bytes) : RItems xs body → RVal2 (.list xs) ([40] ++ body ++ [41]) false
+  | clist (x r g2 : Bytes) (b : Bool) (xs : List Bytes) (body : Bytes) (bl : Bool) : NoNul x → RStr x b r → GapOK true g2 →
+      RCItems xs body bl → RVal2 (.list (x :: xs)) (r ++ g2 ++ [44] ++ body) bl
+  | obj (es : List (Bytes × Val)) (blk : Bytes) : RBlock es blk → RVal2 (.obj es) ([123] ++ blk ++ [125]) false
+/-- the entries of an object (or of the file) followed by the closing gap -/
+inductive RBlock : List (Bytes × Val) → Bytes → Prop where
+  | nil (cg : Bytes) : GapOK false cg → RBlock [] cg
+  | term (n : Bytes) (v : Val) (es : List (Bytes × Val)) (pre rn sep rv pt : Bytes) (bn bv : Bool) (t : UInt8) (rest : Bytes) :
+      GapOK false pre → NoNul n → RStr n bn rn → GapOK false sep → RVal2 v rv bv → Follows bn (sep ++ rv) →
+      GapOK true pt → (t = 59 ∨ t = 10) → RBlock es rest →
+      RBlock ((n, v) :: es) (pre ++ rn ++ sep ++ rv ++ pt ++ [t] ++ rest)
+  | open (n : Bytes) (v : Val) (pre rn sep rv W : Bytes) (bn bv : Bool) :
+      GapOK false pre → NoNul n → RStr n bn rn → GapOK false sep → RVal2 v rv bv → Follows bn (sep ++ rv) →
+      CareSplit W → RBlock [(n, v)] (pre ++ rn ++ sep ++ rv ++ W)
+end
+
+
+theorem rval2_head {v : Val} {rv : Bytes} {bv : Bool} (h : RVal2 v rv bv) : ∃ c tl, rv = c :: tl := by
+  cases h with
+  | str s r b _ hr => obtain ⟨c, t, rfl, _⟩ := rstr_head hr; exact ⟨c, t, rfl⟩
+  | pair h s rh rs g bh bs _ _ hr _ _ _ => obtain ⟨c, t, rfl, _⟩ := rstr_head hr; exact ⟨c, _, rfl⟩
+  | list xs body _ => exact ⟨40, _, rfl⟩
+  | clist x r g2 b xs body bl _ hr _ _ => obtain ⟨c, t, rfl, _⟩ := rstr_head hr; exact ⟨c, _, rfl⟩
+  | obj es blk _ => exact ⟨123, _, rfl⟩
+
+mutual
+theorem rt2_entry (V : Variant) (hV : FixedParser V) (d : Bytes) : {v : Val} → {rv : Bytes} → {bv : Bool} → (hv : RVal2 v rv bv) →
+    ∀ (fuel : Nat) (isRoot : Bool) (kids : List PNode) (pos : Nat) (g0 n rn sep : Bytes) (bn : Bool) (E : Bytes) (Q : Nat → Prop),
+    GapOK false g0 → NoNul n → RStr n bn rn → GapOK false sep → Follows bn (sep ++ rv) →
+    EndForm d isRoot (pos + g0.length + rn.length + sep.length + rv.length) E Q →
+    d.drop pos = g0 ++ rn ++ sep ++ rv ++ E → 2 * (d.length - pos) + 1 ≤ fuel →
+    ∃ q, parseEntry V d fuel isRoot kids pos = .ok (padd n v kids, q) ∧ Q q
+  | _, _, _, hv, 0, _, _, _, _, _, _, _, _, _, _, _, _, _, _, _, _, _, hf => by omega
+  | v, rv, bv, hv, fuel + 1, isRoot, kids, pos, g0, n, rn, sep, bn, E, Q, hg0, hn, hrn, hsep, hfol, hE, hd, hf => by
+    obtain ⟨c, tl, hrv⟩ := rval2_head hv
+    have hlen : pos + g0.length + rn.length + sep.length + rv.length ≤ d.length := by
+      have := congrArg List.length hd
+      simp only [List.length_drop, List.length_append] at this
+      have h1 : 1 ≤ rv.length := by rw [hrv]; simp
+      omega
+    have hrn1 : 1 ≤ rn.length := by
+      obtain ⟨c', t', e', _⟩ := rstr_head hrn
+      rw [e']; simp
+    unfold parseEntry
+    have hfol' : Follows bn (sep ++ rv ++ E) := by
+      have : sep ++ rv ≠ [] := by rw [hrv]; simp
+      exact follows_extend bn (sep ++ rv) E this hfol
+    rw [parseString_at d pos g0 n bn rn _ hg0 hn hrn hfol' (by simpa using hd)]
+    simp only [bind, Except.bind]
+    have hd1 : d.drop (pos + g0.length + rn.length) = sep ++ c :: (tl ++ E) := by
+      have := drop_app (a := g0 ++ rn) (b := sep ++ rv ++ E) (by simpa using hd)
+      rw [hrv] at this
+      simpa [Nat.add_assoc] using this
+    have hd2 : d.drop (pos + g0.length + rn.length + sep.length + 1 - 1) = rv ++ E := by
+      have := drop_app (a := sep) (b := c :: (tl ++ E)) hd1
+      rw [hrv]; simpa using this
+    match v, rv, bv, hv with
+    | _, _, _, .str s r b hs hr =>
+      obtain ⟨c', tl', hr', hc'⟩ := rstr_head hr
+      have ecc : c = c' := by rw [hr'] at hrv; injection hrv with h1 _; exact h1.symm
+      subst ecc
+      obtain ⟨st, c0, c40, _, c123, _⟩ := strhead_stop false c hc'
+      rw [wsAt_gap false d _ sep c _ hsep st hd1]
+      have e0 : (c == 0) = false := by simpa using c0
+      have e40 : (c == 40) = false := by simpa using c40
+      have e123 : (c == 123) = false := by simpa using c123
+      simp only [e0, e40, e123, Bool.false_eq_true, if_false]
+      have hE' : EndForm d isRoot (pos + g0.length + rn.length + sep.length + 1 - 1 + r.length) E Q := by
+        have : pos + g0.length + rn.length + sep.length + 1 - 1 = pos + g0.length + rn.length + sep.length := by omega
+        rw [this]; exact hE
+      exact val_str_form V hV d isRoot kids fuel n s r b _ (by omega) hs hr E Q hE' hd2
+    | _, _, _, .pair h s rh rs g bh bs hh hs hrh hg hfo hrs =>
+      obtain ⟨c', tl', hr', hc'⟩ := rstr_head hrh
+      have ecc : c = c' := by rw [hr'] at hrv; simp at hrv; exact hrv.1.symm
+      subst ecc
+      obtain ⟨st, c0, c40, _, c123, _⟩ := strhead_stop false c hc'
+      rw [wsAt_gap false d _ sep c _ hsep st hd1]
+      have e0 : (c == 0) = false := by simpa using c0
+      have e40 : (c == 40) = false := by simpa using c40
+      have e123 : (c == 123) = false := by simpa using c123
+      simp only [e0, e40, e123, Bool.false_eq_true, if_false]
+      have hE' : EndForm d isRoot (pos + g0.length + rn.length + sep.length + 1 - 1 + rh.length + g.length + rs.length) E Q := by
+        have : pos + g0.length + rn.length + sep.length + 1 - 1 + rh.length + g.length + rs.length
+             = pos + g0.length + rn.length + sep.length + (rh ++ g ++ rs).length := by simp; omega
+        rw [this]; exact hE
+      exact val_pair_form V hV d isRoot kids fuel n h s rh g rs bh bs _ (by omega) hh hs hrh hg hfo hrs E Q hE' (by simpa using hd2)
+    | _, _, _, .clist x r g2 b xs body bl hx hr hg2 hrc =>
+      obtain ⟨c', tl', hr', hc'⟩ := rstr_head hr
+      have ecc : c = c' := by rw [hr'] at hrv; simp at hrv; exact hrv.1.symm
+      subst ecc
+      obtain ⟨st, c0, c40, _, c123, _⟩ := strhead_stop false c hc'
+      rw [wsAt_gap false d _ sep c _ hsep st hd1]
+      have e0 : (c == 0) = false := by simpa using c0
+      have e40 : (c == 40) = false := by simpa using c40
+      have e123 : (c == 123) = false := by simpa using c123
+      simp only [e0, e40, e123, Bool.false_eq_true, if_false]
+      have hE' : EndForm d isRoot (pos + g0.length + rn.length + sep.length + 1 - 1 + r.length + g2.length + 1 + body.length) E Q := by
+        have : pos + g0.length + rn.length + sep.length + 1 - 1 + r.length + g2.length + 1 + body.length
+             = pos + g0.length + rn.length + sep.length + (r ++ g2 ++ [44] ++ body).length := by simp; omega
+        rw [this]; exact hE
+      exact val_clist_form V hV d isRoot kids fuel n x r g2 b xs body bl _ (by omega) hx hr hg2 hrc E Q hE'
+        (by simpa using hd2) (by simp only [List.length_append, List.length_cons, List.length_nil] at hlen; omega)
+    | _, _, _, .list xs body hit =>
+      have ecc : c = 40 := by simp at hrv; exact hrv.1.symm
+      subst ecc
+      rw [wsAt_gap false d _ sep 40 _ hsep (.inl ⟨by decide, by decide, by decide⟩) hd1]
+      simp only [show ((40 : UInt8) == 0) = false by decide, beq_self_eq_true, Bool.false_eq_true, if_false, if_true]
+      unfold entryParen
+      simp only [nonNull, bind, Except.bind]
+      have htl : tl = body ++ [41] := by simpa using hrv.symm
+      subst htl
+      have hd3 : d.drop (pos + g0.length + rn.length + sep.length + 1) = body ++ 41 :: E := by
+        have := drop_app (a := sep ++ [40]) (b := body ++ 41 :: E) (by simpa using hd1)
+        simpa [Nat.add_assoc] using this
+      rw [parenLoop_at d xs body hit fuel _ [] _ hd3 (by simp at hlen ⊢; omega)]
+      simp only [List.nil_append]
+      have hd4 : d.drop (pos + g0.length + rn.length + sep.length + 1 + body.length + 1) = E := by
+        have := drop_app (a := body ++ [41]) (b := E) (by simpa using hd3)
+        simpa [Nat.add_assoc] using this
+      have hE' : EndForm d isRoot (pos + g0.length + rn.length + sep.length + 1 + body.length + 1) E Q := by
+        have : pos + g0.length + rn.length + sep.length + 1 + body.length + 1
+             = pos + g0.length + rn.length + sep.length + ([40] ++ body ++ [41]).length := by simp; omega
+        rw [this]; exact hE
+      obtain ⟨q, hq, hQ⟩ := entryEnd_form V hV d isRoot (putList n xs kids) _ E Q hE' (by simp at hlen ⊢; omega) hd4
+      exact ⟨q, by simpa [padd] using hq, hQ⟩
+    | _, _, _, .obj es blk hb =>
+      have ecc : c = 123 := by simp at hrv; exact hrv.1.symm
+      subst ecc
+      rw [wsAt_gap false d _ sep 123 _ hsep (.inl ⟨by decide, by decide, by decide⟩) hd1]
+      simp only [show ((123 : UInt8) == 0) = false by decide, show ((123 : UInt8) == 40) = false by decide,
+        beq_self_eq_true, Bool.false_eq_true, if_false, if_true, nonNull]
+      have htl : tl = blk ++ [125] := by simpa using hrv.symm
+      subst htl
+      have hd3 : d.drop (pos + g0.length + rn.length + sep.length + 1) = blk ++ 125 :: E := by
+        have := drop_app (a := sep ++ [123]) (b := blk ++ 125 :: E) (by simpa using hd1)
+        simpa [Nat.add_assoc] using this
+      rw [rt2_block V hV d hb fuel (kidsOf (pfind n 3 kids)) _ E hd3 (by simp at hlen ⊢; omega)]
+      simp only
+      have hd4 : d.drop (pos + g0.length + rn.length + sep.length + 1 + blk.length + 1) = E := by
+        have := drop_app (a := blk ++ [125]) (b := E) (by simpa using hd3)
+        simpa [Nat.add_assoc] using this
+      have hE' : EndForm d isRoot (pos + g0.length + rn.length + sep.length + 1 + blk.length + 1) E Q := by
+        have : pos + g0.length + rn.length + sep.length + 1 + blk.length + 1
+             = pos + g0.length + rn.length + sep.length + ([123] ++ blk ++ [125]).length := by simp; omega
+        rw [this]; exact hE
+      obtain ⟨q, hq, hQ⟩ := entryEnd_form V hV d isRoot (putObj n (padd.pfoldAux es (kidsOf (pfind n 3 kids))) kids) _ E Q hE'
+        (by simp at hlen ⊢; omega) hd4
+      exact ⟨q, by simpa [padd] using hq, hQ⟩
+
+theorem rt2_block (V : Variant) (hV : FixedParser V) (d : Bytes) : {es : List (Bytes × Val)} → {blk : Bytes} → (hb : RBlock es blk) →
+    ∀ (fuel : Nat) (kids : List PNode) (pos : Nat) (rest : Bytes),
+    d.drop pos = blk ++ 125 :: rest → 2 * (d.length - pos) + 2 ≤ fuel →
+    objLoop V d fuel kids pos = .ok (padd.pfoldAux es kids, pos + blk.length + 1)
+  | _, _, hb, 0, _, _, _, _, hf => by omega
+  | _, _, .nil cg hcg, fuel + 1, kids, pos, rest, hd, hf => by
+    unfold objLoop
+    rw [wsAt_gap false d pos cg 125 rest hcg (.inl ⟨by decide, by decide, by decide⟩) hd]
+    simp [bind, Except.bind, padd.pfoldAux]
+  | _, _, .term n v es pre rn sep rv pt bn bv t rest' hpre hn hrn hsep hv hfol hpt ht hb', fuel + 1, kids, pos, rest, hd, hf => by
+    obtain ⟨c, tl, hrn', hc⟩ := rstr_head hrn
+    obtain ⟨st, c0, _, _, _, c125, _⟩ := strhead_stop false c hc
+    have hlen : pos + pre.length + rn.length + sep.length + rv.length + pt.length + 1 + rest'.length + 1 ≤ d.length := by
+      have := congrArg List.length hd
+      simp only [List.length_drop, List.length_append, List.length_cons, List.length_nil] at this
+      omega
+    have hrnl : 1 ≤ rn.length := by rw [hrn']; simp
+    unfold objLoop
+    have hd0 : d.drop pos = pre ++ c :: (tl ++ sep ++ rv ++ pt ++ t :: (rest' ++ 125 :: rest)) := by
+      rw [hd, hrn']; simp
+    rw [wsAt_gap false d pos pre c _ hpre st hd0]
+    have e0 : (c == 0) = false := by simpa using c0
+    have e125 : (c == 125) = false := by simpa using c125
+    simp only [e0, e125, Bool.false_eq_true, if_false, bind, Except.bind]
+    rw [unread_ok _ (by omega)]
+    simp only [Nat.add_sub_cancel]
+    have hd1 : d.drop (pos + pre.length) = [] ++ rn ++ sep ++ rv ++ (pt ++ t :: (rest' ++ 125 :: rest)) := by
+      have := drop_app (a := pre) (b := rn ++ sep ++ rv ++ pt ++ t :: (rest' ++ 125 :: rest)) (by simpa using hd)
+      simpa using this
+    obtain ⟨q, hq, hQ⟩ := rt2_entry V hV d hv fuel false kids (pos + pre.length) [] n rn sep bn _ _ (gapOK_nil false) hn hrn hsep hfol
+      (EndForm.term pt t (rest' ++ 125 :: rest) hpt ht) hd1 (by omega)
+    rw [hq]
+    simp only
+    subst hQ
+    simp only [List.length_nil, Nat.add_zero]
+    have hd2 : d.drop (pos + pre.length + rn.length + sep.length + rv.length + pt.length + 1) = rest' ++ 125 :: rest := by
+      have := drop_app (a := rn ++ sep ++ rv ++ pt ++ [t]) (b := rest' ++ 125 :: rest) (by simpa using hd1)
+      simpa [Nat.add_assoc] using this
+    rw [rt2_block V hV d hb' fuel _ _ rest hd2 (by omega)]
+    simp [padd.pfoldAux]; omega
+  | _, _, .open n v pre rn sep rv W bn bv hpre hn hrn hsep hv hfol hW, fuel + 1, kids, pos, rest, hd, hf => by
+    obtain ⟨c, tl, hrn', hc⟩ := rstr_head hrn
+    obtain ⟨st, c0, _, _, _, c125, _⟩ := strhead_stop false c hc
+    have hlen : pos + pre.length + rn.length + sep.length + rv.length + W.length + 1 ≤ d.length := by
+      have := congrArg List.length hd
+      simp only [List.length_drop, List.length_append, List.length_cons, List.length_nil] at this
+      omega
+    have hrnl : 1 ≤ rn.length := by rw [hrn']; simp
+    unfold objLoop
+    have hd0 : d.drop pos = pre ++ c :: (tl ++ sep ++ rv ++ W ++ 125 :: rest) := by
+      rw [hd, hrn']; simp
+    rw [wsAt_gap false d pos pre c _ hpre st hd0]
+    have e0 : (c == 0) = false := by simpa using c0
+    have e125 : (c == 125) = false := by simpa using c125
+    simp only [e0, e125, Bool.false_eq_true, if_false, bind, Except.bind]
+    rw [unread_ok _ (by omega)]
+    simp only [Nat.add_sub_cancel]
+    have hd1 : d.drop (pos + pre.length) = [] ++ rn ++ sep ++ rv ++ (W ++ 125 :: rest) := by
+      have := drop_app (a := pre) (b := rn ++ sep ++ rv ++ W ++ 125 :: rest) (by simpa using hd)
+      simpa using this
+    obtain ⟨q, hq, hQ⟩ := rt2_entry V hV d hv fuel false kids (pos + pre.length) [] n rn sep bn _ _ (gapOK_nil false) hn hrn hsep hfol
+      (EndForm.open W (125 :: rest) hW (.inl ⟨rest, rfl, rfl⟩)) hd1 (by omega)
+    rw [hq]
+    simp only
+    obtain ⟨k, k2, rfl, hr, hdq⟩ := hQ
+    -- the loop resumes inside the closing gap and finds the `}`
+    cases fuel with
+    | zero => omega
+    | succ fuel =>
+      unfold objLoop
+      rw [wsAt_gap false d _ (W.drop k) 125 rest hr (.inl ⟨by decide, by decide, by decide⟩) hdq]
+      simp only [bind, Except.bind, beq_self_eq_true, if_true, padd.pfoldAux]
+      simp only [List.length_nil, Nat.add_zero, List.length_drop, List.length_append]
+      congr 2
+      omega
+end
+
+
+/-! ### the whole file, general form -/
+
+theorem topLoop_gap_eof (V : Variant) (d : Bytes) (kids : List PNode) (pos : Nat) (g : Bytes) (fuel : Nat)
+    (hg : GapOK false g) (hp : pos ≤ d.length) (hd : d.drop pos = g) (hf : 3 ≤ fuel) :
+    topLoop V d fuel kids pos = .ok kids := by
+  obtain ⟨f1, rfl⟩ : ∃ f1, fuel = f1 + 1 := ⟨fuel - 1, by omega⟩
+  unfold topLoop
+  have h1 : ¬ pos > d.length := by omega
+  simp only [h1, if_false]
+  by_cases he : pos = d.length
+  · simp [he]
+  · have hb : (pos == d.length) = false := by simpa using he
+    simp only [hb, Bool.false_eq_true, if_false, bind, Except.bind]
+    obtain ⟨f2, rfl⟩ : ∃ f2, f1 = f2 + 1 := ⟨f1 - 1, by omega⟩
+    unfold parseEntry
+    simp only [bind, Except.bind]
+    unfold parseString
+    rw [wsAt_gap_eof false d pos g hp hg hd]
+    simp only [beq_self_eq_true, if_true]
+    rw [wsAt_end]
+    simp only [beq_self_eq_true, if_true]
+    unfold topLoop
+    simp
+
+theorem rt2_top (V : Variant) (hV : FixedParser V) (d : Bytes) : {es : List (Bytes × Val)} → {blk : Bytes} → (hb : RBlock es blk) →
+    ∀ (fuel : Nat) (kids : List PNode) (pos : Nat), pos ≤ d.length → d.drop pos = blk → 2 * (d.length - pos) + 4 ≤ fuel →
+    topLoop V d fuel kids pos = .ok (padd.pfoldAux es kids)
+  | _, _, hb, 0, _, _, _, _, hf => by omega
+  | _, _, .nil cg hcg, fuel + 1, kids, pos, hp, hd, hf => by
+    simpa [padd.pfoldAux] using topLoop_gap_eof V d kids pos cg (fuel + 1) hcg hp hd (by omega)
+  | _, _, .term n v es pre rn sep rv pt bn bv t rest' hpre hn hrn hsep hv hfol hpt ht hb', fuel + 1, kids, pos, hp, hd, hf => by
+    have hlen : pos + pre.length + rn.length + sep.length + rv.length + pt.length + 1 + rest'.length = d.length := by
+      have := congrArg List.length hd
+      simp only [List.length_drop, List.length_append, List.length_cons, List.length_nil] at this
+      omega
+    obtain ⟨c, tl, hrn', _⟩ := rstr_head hrn
+    have hrnl : 1 ≤ rn.length := by rw [hrn']; simp
+    unfold topLoop
+    have h1 : ¬ pos > d.length := by omega
+    have hb : (pos == d.length) = false := by
+      have : pos ≠ d.length := by omega
+      simpa using this
+    simp only [h1, if_false, hb, Bool.false_eq_true, bind, Except.bind]
+    have hd1 : d.drop pos = pre ++ rn ++ sep ++ rv ++ (pt ++ t :: rest') := by simpa using hd
+    obtain ⟨q, hq, hQ⟩ := rt2_entry V hV d hv fuel true kids pos pre n rn sep bn _ _ hpre hn hrn hsep hfol
+      (EndForm.term pt t rest' hpt ht) hd1 (by omega)
+    rw [hq]
+    simp only
+    subst hQ
+    have hd2 : d.drop (pos + pre.length + rn.length + sep.length + rv.length + pt.length + 1) = rest' := by
+      have := drop_app (a := pre ++ rn ++ sep ++ rv ++ pt ++ [t]) (b := rest') (by simpa using hd1)
+      simpa [Nat.add_assoc] using this
+    rw [rt2_top V hV d hb' fuel _ _ (by omega) hd2 (by omega)]
+    simp [padd.pfoldAux]
+  | _, _, .open n v pre rn sep rv W bn bv hpre hn hrn hsep hv hfol hW, fuel + 1, kids, pos, hp, hd, hf => by
+    have hlen : pos + pre.length + rn.length + sep.length + rv.length + W.length = d.length := by
+      have := congrArg List.length hd
+      simp only [List.length_drop, List.length_append, List.length_cons, List.length_nil] at this
+      omega
+    obtain ⟨c, tl, hrn', _⟩ := rstr_head hrn
+    have hrnl : 1 ≤ rn.length := by rw [hrn']; simp
+    unfold topLoop
+    have h1 : ¬ pos > d.length := by omega
+    have hb : (pos == d.length) = false := by
+      have : pos ≠ d.length := by omega
+      simpa using this
+    simp only [h1, if_false, hb, Bool.false_eq_true, bind, Except.bind]
+    have hd1 : d.drop pos = pre ++ rn ++ sep ++ rv ++ (W ++ []) := by simpa using hd
+    obtain ⟨q, hq, hQ⟩ := rt2_entry V hV d hv fuel true kids pos pre n rn sep bn _ _ hpre hn hrn hsep hfol
+      (EndForm.open W [] hW (.inr rfl)) hd1 (by omega)
+    rw [hq]
+    simp only
+    obtain ⟨k, k2, rfl, hr, hdq⟩ := hQ
+    rw [topLoop_gap_eof V d _ _ (W.drop k) fuel hr (by omega) (by simpa using hdq) (by omega)]
+    simp [padd.pfoldAux]
+
+/-- a text of the general shape (any terminator choice, both list forms) is parsed by the
+    repaired parser to the tree the document's entries accumulate to -/
+theorem parse_rendered2 (V : Variant) (hV : FixedParser V) (es : List (Bytes × Val)) (blk : Bytes) (hb : RBlock es blk)
+    (hnn : NoNul blk) (hne : blk ≠ []) : parseFile V blk = .ok (pfold es []) := by
+  unfold parseFile
+  have : blk.isEmpty = false := by
+    cases h : blk with
+    | nil => exact absurd h hne
+    | cons _ _ => rfl
+  simp only [this, Bool.false_eq_true, if_false, fileData, cstr_noNul _ hnn]
+  exact rt2_top V hV blk hb _ [] 0 (by omega) (by simp) (by simp [parseFuel])
+
 end Iauthd.Conf
